@@ -148,7 +148,8 @@ func runOneBatch(c *Ctx, self, worker string, inputs [][]byte, lo, hi int,
 		cmd := exec.Command(self, "__child", worker, batchFile, progFile, resFile, fmt.Sprint(start))
 		cmd.Stderr = ef
 		cmd.Stdout = ef
-		cmd.Env = append(os.Environ(), "GOTRACEBACK=single")
+		// scratch directories of a child that has to be killed go with the batch directory
+		cmd.Env = append(os.Environ(), "GOTRACEBACK=single", "TMPDIR="+dir)
 		if memLimitMB > 0 {
 			cmd.Env = append(cmd.Env, fmt.Sprintf("GOMEMLIMIT=%dMiB", memLimitMB))
 		}
@@ -250,7 +251,7 @@ func ConfirmAlone(c *Ctx, worker string, input []byte, cpuSec int, wall time.Dur
 	ef, _ := os.Create(filepath.Join(dir, "stderr"))
 	cmd := exec.Command(self, "__child", worker, batchFile, progFile, resFile, "0")
 	cmd.Stderr, cmd.Stdout = ef, ef
-	cmd.Env = append(os.Environ(), "GOTRACEBACK=single", fmt.Sprintf("VERIF_CHILD_CPU=%d", cpuSec), "GOMEMLIMIT=4096MiB")
+	cmd.Env = append(os.Environ(), "GOTRACEBACK=single", fmt.Sprintf("VERIF_CHILD_CPU=%d", cpuSec), "GOMEMLIMIT=4096MiB", "TMPDIR="+dir)
 	cmd.SysProcAttr = &syscall.SysProcAttr{Pdeathsig: syscall.SIGKILL}
 	if err := cmd.Start(); err != nil {
 		ef.Close()
